@@ -124,6 +124,13 @@ func (c *fRegistryImpl) dispatch(opid uint64, frame []byte) error {
 	}
 	c.mu.RUnlock()
 
-	resultC <- frame
+	// The result channel is buffered for the single response a request can
+	// consume. If it is already full, the request has its response (or has
+	// stopped listening), so drop the frame rather than stall the reader.
+	select {
+	case resultC <- frame:
+	default:
+		logger().Warn("frugal: dropping frame for opid with a response already pending")
+	}
 	return nil
 }
